@@ -22,14 +22,15 @@ fn space_for(tier: Tier) -> Space {
     match tier {
         Tier::Quick => {
             s.tok("T", &gen::T_FULL, 3, 1024).tok("T0", &gen::T_CORE, 4, 1024);
-            s.ast("K", 4, 128).ast("Q", 3, 128).ast("CL", 3, 128).ast("G", 4, 128);
+            s.ast("K", 4, 128).ast("Q", 3, 128).ast("CL", 3, 128).ast("G", 4, 128).ast("CAPQ", 3, 128);
         }
         Tier::Thorough => {
             s.tok("T", &gen::T_FULL, 4, 2048).tok("T0", &gen::T_CORE, 5, 2048);
-            s.ast("K", 5, 128).ast("Q", 4, 128).ast("CL", 4, 128).ast("G", 5, 128).ast("AN", 4, 128);
+            s.ast("K", 5, 128).ast("Q", 4, 128).ast("CL", 4, 128).ast("G", 5, 128).ast("AN", 4, 128).ast("CAPQ", 4, 128);
         }
     }
     s.list("flagstrings", 1 + 6 + 36, 64);
+    s.list("whitespace under x", crate::checks::c07::xws_cases().len() as u64, 64);
     s
 }
 
@@ -74,6 +75,39 @@ impl Check for C17 {
         let sp = space_for(ctx.tier);
         let (seg, lo, hi) = sp.locate(chunk);
         let scope_name = space::seg_scope_name(seg);
+        if let SegKind::List { name: "whitespace under x" } = seg.kind {
+            // acceptance under Regex::xsd with flag x = XSD-mode verdict on the reference-stripped text
+            let cases = crate::checks::c07::xws_cases();
+            for i in lo..hi {
+                let text = &cases[i as usize];
+                let stripped: String = refparse::strip_x(&text.chars().collect::<Vec<_>>()).iter().collect();
+                let v = refparse::parse(&stripped, Dialect::Xsd, &ctx.ucd);
+                out.inc("states");
+                let got = imp::compile(text, "x", true);
+                if got.is_crash() {
+                    out.inc("inconclusive_crash");
+                    continue;
+                }
+                let case = Case::new(&scope_name, text, "x").xsd(true).api("compile");
+                match (&v, &got) {
+                    (Verdict::Unclear(_), _) => out.inc("ref_unclear_skipped"),
+                    (Verdict::Valid(_), Out::Ok(_)) | (Verdict::Invalid(_), Out::Err(_)) => {
+                        out.inc("validated");
+                        out.inc("nontrivial");
+                    }
+                    (Verdict::Valid(_), _) => {
+                        out.inc("validated");
+                        out.fail("C17", &case, "XsdRejectsValid", &format!("Ok (stripped {:?} is a valid XSD regex)", stripped), "rejected", "flag x");
+                    }
+                    (Verdict::Invalid(why), _) => {
+                        out.inc("validated");
+                        out.fail("C17", &case, "XsdAcceptsInvalid", &format!("an error: stripped {:?}: {}", stripped, why), "Ok", "flag x");
+                    }
+                }
+                out.sample(J::obj(vec![("pattern", J::s(text)), ("flags", J::s("x")), ("dialect", J::s("xsd"))]));
+            }
+            return;
+        }
         if let SegKind::List { .. } = seg.kind {
             for i in lo..hi {
                 let flags = flag_string(i);
@@ -188,8 +222,8 @@ impl Check for C17 {
                             }
                         };
                         for inp in &inputs {
-                            let a = imp::surface(&rx2, inp, "<$0>");
-                            let b = imp::surface(&rp2, inp, "<$0>");
+                            let a = imp::surface(&rx2, inp, "<$0|$1|$2>");
+                            let b = imp::surface(&rp2, inp, "<$0|$1|$2>");
                             out.inc("states");
                             if a.any_crash() || b.any_crash() {
                                 out.inc("inconclusive_crash");
@@ -199,7 +233,7 @@ impl Check for C17 {
                             if a != b {
                                 out.fail(
                                     "C17",
-                                    &Case::new(&scope_name, text, flags).input(inp).repl("<$0>").api("all"),
+                                    &Case::new(&scope_name, text, flags).input(inp).repl("<$0|$1|$2>").api("all"),
                                     "DialectsDisagree",
                                     &format!("xpath: {}", b.show()),
                                     &format!("xsd: {}", a.show()),
